@@ -27,7 +27,7 @@ PROPS['C16'] = dict(
     level='exploration', jobs=c16_jobs,
     rule='exhaustive: all 2^12 off-diagonal patterns of 4x4 matrices x {row-dd, column-dd, Hermitian p.d.} x {double, complex, 2x2 block} through skyline_lu, the same 4096 patterns with two integer value assignments each in exact rational arithmetic, all directed graphs on <= 5 vertices (with / without diagonal) through both Cuthill-McKee variants, all QR shapes 1..12 x 1..12 x both storage orders x {double, complex, float}; random: 9 pattern families (directed, symmetric, disconnected with interleaved labels, upper/lower-only, arrow, grid, one-way cycle, dense) up to 40 (60) unknowns with value types double/float/complex/2x2/3x3 blocks, dyadic integer systems, inverses of 7 kinds of n<=8 matrices incl. zero diagonals / vanishing leading minors, random graphs with several components. A case is non-trivial when the matrix has off-diagonal entries (skyline), is not the zero matrix (QR) or not the identity fallback (inverse); distinct = distinct (sub-check, descriptor) hash.',
     exhaustive_note='skyline_exhaustive (4x4 patterns), skyline_exact (4x4 patterns, rational), cm_exhaustive (<= 5 vertices; asan quick tier: every 8th batch on 5 vertices), qr shapes',
-    min_nontrivial=dict(quick=20000, thorough=100000),
+    min_nontrivial=dict(quick=20000, thorough=80000),
     assumptions=COMMON_ASSUME + ['boost::rational<long long> arithmetic is exact for the small integer systems used (no overflow: n <= 6, |a_ij| <= 3)'],
     technique='dense complex-long-double reference model with derived backward-error bounds, exact rational / dyadic arithmetic, exhaustive small-pattern enumeration, under plain -O2 and ASan/UBSan',
     level_text='skyline_lu, detail::inverse / math::inverse, detail::QR, static_matrix arithmetic and both Cuthill-McKee variants are executed on exhaustively enumerated small structures and seeded random inputs; results are compared with dense long double references under the textbook backward-error bounds, or exactly (rationals, dyadic integers, integer identities). Held means no observed execution violated the definition.',
